@@ -259,11 +259,14 @@ def run(ctx):
     n_ds = 20 if quick else 160
     exprs, plans = [], []
     for n in range(n_ds):
-        fams = ['cf1d', 'cf2d', 'shoc_simple', 'shoc_standard', 'ugrid', 'ugrid']
+        fams = ['cf1d', 'cf2d', 'shoc_simple', 'shoc_standard', 'ugrid', 'ugrid', 'ugrid']
         fam = fams[n] if n < len(fams) else rng.choice(fams)          # every convention in every run
         kw = {}
         if fam == 'ugrid' and n % 3 == 0:
             kw = dict(w=rng.randint(3, 5), h=rng.randint(3, 4))       # enough faces for the tree order to matter
+        if fam == 'ugrid' and n == 6:
+            # a one-based mesh of mixed faces whose unused entries are written as 0 (in memory: the raw 0 stays under the mask)
+            kw = dict(w=3, h=3, start_index=1, fill='attr0', transposed=False)
         if fam == 'ugrid' and n == 5:
             # the edges are known only through an edge_face table: no edge_dimension attribute, no edge_node table
             kw = dict(w=3, h=2, supplied={'edge_face'}, edge_dim_declared=False, transposed=False)
